@@ -37,7 +37,7 @@ pub fn profile(tier: Tier) -> Profile {
     p.w_read = 0;
     p.w_reopen = 1;
     p.with_alt = true;
-    p.faults = FaultGen::SyncOnly;
+    p.faults = FaultGen::SyncAndUnlink;
     p
 }
 
@@ -81,7 +81,7 @@ impl Prop for C08 {
         "fault_enumeration"
     }
     fn rule(&self) -> String {
-        "proptest generates (config, purge-heavy history incl. purges beyond last, lower-term re-appends and truncations, worker schedule, fdatasync fault plan). The run is traced with the worker gated at every call. Oracle at every successful unlink in the trace: \
+        "proptest generates (config, purge-heavy history incl. purges beyond last, lower-term re-appends and truncations, worker schedule, fault plan: failing fdatasyncs and failing unlinks). The run is traced with the worker gated at every call. Oracle at every successful unlink in the trace: \
          (a) the deleted file is the lowest-offset chunk file present; (b) crash right after the unlink keeping only synced bytes: the directory must open and show a model prefix within [acknowledged, issued] — i.e. the purge that made the chunk obsolete is durable in the remaining files — \
          and must show the same state as the same image with the deleted file put back; (c) the remaining files are consecutive chunks of the expected journal (no hole) and the first starts with a State record. \
          At the end (flush acknowledged Ok, worker idle, no EIO/ENOSPC injected): the remaining files replayed with the reference decoder give exactly the model state and entries, and every chunk that was closed when the last effective purge was called, whose last log index at closing and whose every Append index are <= the purged index (and all older chunks likewise) is gone. \
